@@ -92,6 +92,8 @@ func (vc *VC) typeID(t types.Type) int64 {
 
 var universeDone bool
 
+var ghostByteT types.Type
+
 func setupUniverse(timeT types.Type) {
 	if universeDone {
 		return
@@ -150,8 +152,15 @@ func setupUniverse(timeT types.Type) {
 	for _, n := range []string{"lastSealAD", "lastSealPT", "lastSealKey", "lastOpenAD", "lastOpenNonce", "lastOpenCT", "lastOpenKey"} {
 		types.Universe.Insert(types.NewFunc(token.NoPos, nil, n, types.NewSignatureType(nil, nil, nil, nil, types.NewTuple(v("", types.NewSlice(types.Typ[types.Uint8]))), false)))
 	}
+	{
+		// snapshots of datagrams live in their own heap family (element type ghostbyte) so that later writes to, or
+		// loop havoc of, ordinary byte buffers cannot touch them
+		gb := types.NewTypeName(token.NoPos, nil, "ghostbyte", nil)
+		ghostByteT = types.NewNamed(gb, types.Typ[types.Uint8], nil)
+		types.Universe.Insert(gb)
+	}
 	for _, n := range []string{"lastpkt", "lastsent"} {
-		types.Universe.Insert(types.NewFunc(token.NoPos, nil, n, types.NewSignatureType(nil, nil, nil, nil, types.NewTuple(v("", types.NewSlice(types.Typ[types.Uint8]))), false)))
+		types.Universe.Insert(types.NewFunc(token.NoPos, nil, n, types.NewSignatureType(nil, nil, nil, nil, types.NewTuple(v("", types.NewSlice(ghostByteT))), false)))
 	}
 	for _, n := range []string{"sealed", "opened"} {
 		types.Universe.Insert(types.NewFunc(token.NoPos, nil, n, types.NewSignatureType(nil, nil, nil, nil, types.NewTuple(v("", bt)), false)))
